@@ -185,6 +185,51 @@ theorem cycle_rejected_semantic (g : Graph) (hkeys : g.keys.Nodup) (c d : Nat)
   obtain ⟨comps, ht, topo⟩ := order_topological_total g hkeys
   exact cycle_rejected_of_valid g comps ht topo c d hk e r
 
+/-- **T2 as an equivalence, no certificate**: `compile` answers "constant `c` is
+recursively defined" (with nothing evaluated) exactly when some constant
+reaches itself through at least one reference, and the constant it names is
+one that does — in particular a DAG of constants over cycles of mutually
+recursive functions is never rejected this way, from whichever member the
+cycles are entered. -/
+theorem recursive_iff_cycle (g : Graph) (hkeys : g.keys.Nodup) :
+    ((∃ c, compile g = .ok (.rejected (.recursive c) [])) ↔
+      ∃ c d, g.kind c = .const ∧ Edge g c d ∧ Reach g d c) ∧
+    (∀ c log, compile g = .ok (.rejected (.recursive c) log) →
+      log = [] ∧ g.kind c = .const ∧ ∃ d, Edge g c d ∧ Reach g d c) := by
+  have back : ∀ c log, compile g = .ok (.rejected (.recursive c) log) →
+      log = [] ∧ g.kind c = .const ∧ ∃ d, Edge g c d ∧ Reach g d c := by
+    intro c log h
+    unfold compile at h
+    cases hf : findCompilationOrder g with
+    | error e => simp [hf, bind, Except.bind] at h
+    | ok o =>
+      cases o with
+      | order o =>
+        simp only [hf, bind, Except.bind] at h
+        cases hcg : codegen g o <;> simp [hcg] at h
+      | recursive c' =>
+        simp only [hf, bind, Except.bind, Except.ok.injEq, Compiled.rejected.injEq,
+          Outcome.recursive.injEq] at h
+        obtain ⟨hc, hl⟩ := h
+        subst hc
+        exact ⟨hl.symm, recursive_sound g hkeys c' hf⟩
+      | usesContext c' => simp [hf, bind, Except.bind] at h
+  refine ⟨⟨fun ⟨c, h⟩ => ?_, fun ⟨c, d, hk, e, r⟩ => ?_⟩, back⟩
+  · obtain ⟨_, hk, d, e, r⟩ := back c [] h
+    exact ⟨c, d, hk, e, r⟩
+  · obtain ⟨c', _, h⟩ := cycle_rejected_semantic g hkeys c d hk e r
+    exact ⟨c', h⟩
+
+/-- non-vacuity of the "never rejected" side: ring 1 ⇄ 2 entered through both members -/
+example : ¬ ∃ c, compile ⟨[(0, [2]), (1, [2]), (2, [1]), (3, [1])],
+    fun n => if n = 1 ∨ n = 2 then .func else .const⟩ = .ok (.rejected (.recursive c) []) := by
+  have : compile ⟨[(0, [2]), (1, [2]), (2, [1]), (3, [1])],
+      fun n => if n = 1 ∨ n = 2 then .func else .const⟩
+      = .ok (.compiled [1, 2, 0, 3] ⟨[3, 0, 2, 1], [], [0, 3], [0, 3]⟩) := by decide
+  rintro ⟨c, h⟩
+  rw [this] at h
+  cases h
+
 example : compile ⟨[(0, [1]), (1, [0])], fun _ => .const⟩ = .ok (.rejected (.recursive 1) []) := by decide
 example : compile ⟨[(0, [1]), (1, [2]), (2, [0])], fun n => if n = 1 then .func else .const⟩
     = .ok (.rejected (.recursive 2) []) := by decide
